@@ -166,7 +166,7 @@ package server
 // ---- Context ------------------------------------------------------------------------------------------
 
 //@ func Context.Close results(err)
-//@   tags C13,C04
+//@   tags C13,C04,C15
 //@   requires s != nil
 //@   modifies fopen, iofaults
 //@   update nctxclosed = nctxclosed + 1
@@ -404,12 +404,12 @@ package server
 //@   requires s != nil
 
 //@ func Server.serveConn
-//@   tags C03,C05,C13,C16,C04
+//@   tags C03,C05,C13,C16,C04,C15
 //@   requires s != nil && s.Handler != nil && conn != nil && limbase[conn] == 0 && wsink(conn) == conn && isconn[conn] && wsink(io.Discard) != conn
 //@   requires fpos[conn] >= 0 && (timeoutConfigured(conn) <==> s.ReadTimeout > 0)
 //@   requires forall x {handlerInv(s.Handler, x)} :: !allocated(x) ==> handlerInv(s.Handler, x) @fresh-context-satisfies-handler-invariant
 //@   modifies fopen, fpos, limbase, iofaults, fsw, walkroot, rwhdr, wn, wdata, armed, deadlineOn, connclosed, nctxclosed
-//@   ensures[C13] nctxclosed == old(nctxclosed) + 1 && connclosed[conn] @released-on-every-exit
+//@   ensures[C13,C15] nctxclosed == old(nctxclosed) + 1 && connclosed[conn] @released-on-every-exit
 //@   ensures[C05] !writeAllowed(s.Handler) ==> fsw == old(fsw) @read-only-unless-enabled
 //@   ensures[C03] outKept(conn) @responses-only-appended
 //@   loop 1 invariant wfCtx(ctx) && ctx.rd.Reader == conn && handlerInv(s.Handler, ctx) && fpos[conn] >= 0 @ctx
